@@ -521,6 +521,22 @@ def run_check(prop, tier, budget=None, runs=None, seed=None, workers=None, no_mi
             'recurrence engine (for the occurrence part of the dump)': 'real; crashes inside it are counted separately and not attributed to C10',
         }
         ev['coverage'].pop('simulated_seconds', None)
+    if stage == 'C05RT':
+        ev['coverage']['rule'] = (
+            'one evaluation = one generated calendar (1-3 events over the whole RRULE language: all FREQs, INTERVAL, COUNT/UNTIL, BYMONTH, '
+            'BYMONTHDAY +/-, BYDAY with ordinals, BYYEARDAY, BYWEEKNO, BYEASTER, BYHOUR/BYMINUTE/BYSECOND, BYSETPOS, WKST, SHIFT, SCALE=HIJRI*, '
+            'several RRULEs, RDATE, EXDATE/EXRULE, DATE and DATE-TIME starts, DURATION/DTEND, every task field, calendar-level defaults) x 5-12 '
+            'consumption prefixes k (0, 1, mid-cache, 62..66, 126..129, COUNT-1..COUNT+1); for each k: parse twice, pop k from both, write one copy with '
+            'the real serialiser, re-read, compare the re-read task with the unwritten control (fields, occurrences, durations), the written copy '
+            'with the control (writing must not consume), the first parse with the README field mapping computed by the generator, and the text '
+            'with an independent well-formedness check; non-trivial = more than one job ran; distinct = by hash of the calendar')
+        ev['coverage']['real_vs_stub'] = {
+            'libechse parser, serialiser (echs_icalify_init/echs_task_icalify/echs_icalify_fini), streams, RRULE engine, Hijri calendars': 'real',
+            'caller': 'scripted: consume k, write into a memfd, re-read',
+            'clock (DTSTAMP)': 'stub: pinned',
+            'oracle': 'the code itself for occurrences (unwritten control copy); the generator\'s spec for the fields read from the text',
+        }
+        ev['coverage'].pop('simulated_seconds', None)
     if prop == 'C06':
         ev['coverage']['rule'] = (
             'one evaluation = one sampled request history whose checkpoint(s) after the MARK are enumerated completely: '
